@@ -1,6 +1,6 @@
 SPECIFICATION Spec
 CONSTANTS
-  MaxCalls = 12
+  MaxCalls = 10
   Times = {0, 1, 2, 3}
   SchemaIds = {1, 2}
   ChannelIds = {0, 1, 2}
@@ -8,7 +8,7 @@ CONSTANTS
   Chunkings <- Chunkings_sim
   FlagSets <- Flags_all_magic
   WithAux = TRUE
-  MinCalls = 8
-  WithAsm = FALSE
-INVARIANTS WellFormedInv IndexExactInv ContentInv CrcInv StatsInv LiveStatsInv Export
+  MinCalls = 6
+  WithAsm = TRUE
+INVARIANTS WellFormedInv IndexExactInv ContentInv CrcInv StatsInv Export
 CHECK_DEADLOCK FALSE
